@@ -54,6 +54,16 @@ class Roles:
         k = o[0]
         if k == "role":
             return o[1]
+        if k == "promoted":
+            pb = getattr(self.fb, "promoted", {}).get((o[1], o[2])) if self.fb is not None else None
+            if pb is not None:
+                try:
+                    po = Origins(pb, self.fb)
+                    last = max(i for i, blk in enumerate(pb.blocks) if blk["term"]["k"] == "return")
+                    return Roles(pb, self.fb, param_roles={}).of_origin(po.of_local(0, last, "t"))
+                except Exception:
+                    pass
+            return "PROMOTED"
         if k == "const":
             v = o[2]
             if isinstance(v, int):
